@@ -347,6 +347,30 @@ def run(ctx):
         else:
             r.bad("body", "spawned threads do not run Worker::run", fn=vis[0])
 
+    with ctx.rule("C07.QUIT", "no answer of a visitor is dropped: it is returned or tested, so a Quit always reaches Worker::run", floor=10,
+                  kind="USED") as r:
+        from ..graph import classify_result
+        n_ = 0
+        for name in (WK + "::run_one", WK + "::generate_work", "ignore::walk::WalkParallel::visit"):
+            g = facts.fn(name)
+            for i, c in enumerate(c_ for c_ in g.calls() if c_.func.get("name") == "visit" and "Visitor" in str(c_.func.get("trait"))):
+                v_, d_ = classify_result(g, c)
+                key = "%s|visit|%d" % (name.split("::")[-1], i)
+                n_ += 1
+                if v_ in ("returned", "passed", "try"):
+                    r.ok(key, "visitor's WalkState %s (%s)" % (v_, d_), fn=g)
+                else:
+                    r.bad(key, "%s calls the visitor at %s and %s its answer: a Quit given there is ignored and the walk goes on "
+                          "handing out entries" % (name.split("::")[-1], c.loc, v_), fn=g, loc=c.loc, construct="visit-result")
+        ro = facts.fn(WK + "::run_one")
+        gw_ = ro.calls_to(WK + "::generate_work")
+        for i, c in enumerate(gw_):
+            v_, d_ = classify_result(ro, c)
+            if v_ in ("returned", "passed", "try"):
+                r.ok("run_one|generate_work|%d" % i, "generate_work's WalkState is tested / returned", fn=ro)
+            else:
+                r.bad("run_one|generate_work|%d" % i, "run_one drops the WalkState of generate_work (a Quit from reporting an error)", fn=ro,
+                      loc=c.loc, construct="visit-result")
     with ctx.rule("C07.SEED", "every initial root is handed to some worker's deque", floor=1, kind="FLOW") as r:
         seed_rule(ctx, r)
     with ctx.rule("C07.STEAL", "pop falls back to steal; steal visits every other worker and never itself", floor=3, kind="FLOW") as r:
